@@ -8,6 +8,7 @@ def run(res, tier, replay=None):
     res.functions = sum(1 for _ in prog.all_funcs())
     cg = callgraph.CallGraph(prog)
     c03.run_a(prog, res, cg)
+    c03.run_a_functions(prog, res)
     c03.run_b(prog, res)
     c03.run_c(prog, res)
     res.assumptions = common.ASSUMPTIONS
@@ -20,7 +21,7 @@ def run(res, tier, replay=None):
         "Not decided: closure-slot indexing, derived-form macros, evaluation results.")
     if tier == "thorough":
         common.thorough_mutations(res, "C03", {
-            "C03.a": lambda p, r: c03.run_a(p, r),
+            "C03.a": lambda p, r: (c03.run_a(p, r), c03.run_a_functions(p, r)),
             "C03.b": lambda p, r: c03.run_b(p, r),
             "C03.c": lambda p, r: c03.run_c(p, r),
         })
